@@ -325,7 +325,7 @@ theorem dateOK_of_serial (x : Rat) (s : Bool) (D k : Int) (hD0 : 0 ≤ D) (hk0 :
   have hdec := decode_both x s D k hD0 hk0 hk hx
   unfold dateInOfSerial
   simp only [hdec]
-  refine ⟨?_, ?_, hl⟩
+  refine ⟨?_, ?_, hl, ⟨by simp, by simp⟩⟩
   · rw [timeFOfInstant_eval s D k hk0 hk]
     apply yearOK_of_ge
     have := year_ge_1600 s D hD0
@@ -551,5 +551,43 @@ theorem bignumber_rendered (items : List Tok) (value : Str) (up : Bool) (n : Num
 `k` within half a unit of `|x|·100^pct·10^d` (`round_error_bound_exact`) -/
 theorem exact_layer_fixed (x : Exact.Dec) (pct d : Nat) :
     (Exact.numIn x).fixed pct d = Exact.renderFixed (Exact.scaledRound x pct d) d := rfl
+
+/-! ## Options: LongDatePattern / LongTimePattern behind the system date/time tags -/
+
+/-- totality with options: if the data predicate holds for the inputs, it holds with the nested
+renderings plugged in, so `format` under Options has no panic outcome either -/
+theorem format_total_options (secs : List Sec) (value : Str) (cn : Bool) (n : NumIn) (d : DateIn)
+    (ld lt : Option (List Sec)) (h : DateOK d) :
+    format secs value cn n (applyOptions d ld lt value cn n) ≠ .panic := by
+  obtain ⟨h0, h1, hl, _⟩ := h
+  have hd0 : DateOK { d with sysDate := none, sysTime := none } := ⟨h0, h1, hl, by simp [NestedOK]⟩
+  apply format_ne_panic
+  refine ⟨h0, h1, hl, ?_, ?_⟩
+  · unfold applyOptions
+    cases ld with
+    | none => simp
+    | some s => simp only [Option.map_some]; intro he; exact format_ne_panic s value cn n _ hd0 (Option.some.inj he)
+  · unfold applyOptions
+    cases lt with
+    | none => simp
+    | some s => simp only [Option.map_some]; intro he; exact format_ne_panic s value cn n _ hd0 (Option.some.inj he)
+
+/-- `[$-F800]…` (and x-sysdate, 1010000) as nfp tokenises the bracket -/
+def sysDateTok : Tok := ⟨"CurrencyLanguage", bs "[$-F800]", [⟨"LanguageInfo", ['F','8','0','0'], true⟩]⟩
+
+/-- a cell format that starts with the system long-date tag is rendered by the nested call, whatever
+follows the tag: the result is `format LongDatePattern` on the SAME value and the SAME date system -/
+theorem options_system_tag (rest : List Tok) (value : Str) (ms : Bool) (d : DateIn) (o : Out)
+    (h : d.sysDate = some o) :
+    dateTimeHandler (sysDateTok :: rest) value ms d = o := by
+  unfold dateTimeHandler
+  simp only []
+  have hen : enum (sysDateTok :: rest) = (0, sysDateTok) :: ((List.range (rest.length + 1)).zip (sysDateTok :: rest)).tail := by
+    unfold enum
+    simp [List.range_succ_eq_map]
+  rw [hen]
+  have hc : currencyLanguageO true d.sysTime.isSome sysDateTok.parts [] [] = (.changed true, [], []) := by
+    cases d.sysTime.isSome <;> decide +kernel
+  split <;> (unfold dtLoop; simp [sysDateTok, h] at hc ⊢; simp [hc])
 
 end XlModel.Props.C10
